@@ -1227,8 +1227,12 @@ def main():
                                        chk.workroot)))
     order = {"nz": 0, "ap": 1, "rg": 2, "pv": 3, "pk": 4}
     payloads.sort(key=lambda p: order[p[0]])
+    one_per_part = {}
     for part in R.pmap(dispatch, payloads):
+        for sm in part.get("samples", []):
+            one_per_part.setdefault(sm.get("part"), sm)
         chk.merge(part)
+    chk.samples = list(one_per_part.values())[:6]
     chk.finish(
         rule="pv: vector parameters with 1..12 knots (2 in every fourth "
              "case) at frequency scales 1e-3..1e10, random complex values "
